@@ -1007,7 +1007,7 @@ def check(rep, tier, seed, variant="hooks", n=None, env_extra=None):
         if not chunk:
             return
         res, procs = C.run_batches(b, IMPORTS, "", [(c["id"], c["form"]) for c in chunk], batch=1500,
-                                   env_extra=env, timeout=180, heap="64M/512M", prelude=PRELUDE)
+                                   env_extra=env, timeout=(60 if tier == "quick" else 180), heap="64M/512M", prelude=PRELUDE)
         for c in chunk:
             rep.case(case_sig(c))
             rep.count("cases_" + c["src"])
